@@ -272,7 +272,8 @@ func Supervise(o SupOpts) int {
 	raceTotal := 0
 	evals := 0
 	for _, fl := range flavors {
-		bin := o.Binaries[fl]
+		// a flavour may carry environment for its children: "plain:NAME=value"
+		bin := o.Binaries[strings.SplitN(fl, ":", 2)[0]]
 		if bin == "" {
 			inconcl = append(inconcl, "no binary for flavor "+fl)
 			continue
@@ -281,7 +282,7 @@ func Supervise(o SupOpts) int {
 		for i := range cases {
 			cases[i].ID = i
 		}
-		casesFile := filepath.Join(scratch, "cases-"+fl+".json")
+		casesFile := filepath.Join(scratch, "cases-"+strings.NewReplacer(":", "_", "=", "_", ",", "_").Replace(fl)+".json")
 		cb, _ := json.Marshal(cases)
 		if err := os.WriteFile(casesFile, cb, 0o644); err != nil {
 			inconcl = append(inconcl, err.Error())
@@ -442,7 +443,7 @@ func Supervise(o SupOpts) int {
 		vs := unknownByKey[k]
 		nviol += len(vs)
 		v := vs[0]
-		rp := filepath.Join(o.VerifDir, "replays", fmt.Sprintf("%s-%s-%s-s%d-c%d.json", o.ID, o.Tier, v.flavor, o.Seed, v.c.ID))
+		rp := filepath.Join(o.VerifDir, "replays", fmt.Sprintf("%s-%s-%s-s%d-c%d.json", o.ID, o.Tier, strings.NewReplacer(":", "_", "=", "_", ",", "_").Replace(v.flavor), o.Seed, v.c.ID))
 		rb, _ := json.MarshalIndent(map[string]interface{}{
 			"property": o.ID, "tier": o.Tier, "seed": o.Seed, "flavor": v.flavor,
 			"case": v.c, "key": k, "violation": v.v, "same_key_cases": len(vs), "stderr_tail": tailLines(v.stderr, 80),
@@ -540,8 +541,9 @@ func runFlavor(p *Property, o SupOpts, fl, bin, casesFile string, cases []Case, 
 		seq++
 		n := seq
 		mu.Unlock()
-		outFile := filepath.Join(scratch, fmt.Sprintf("out-%s-%d.jsonl", fl, n))
-		errFile := filepath.Join(scratch, fmt.Sprintf("err-%s-%d.txt", fl, n))
+		tag := strings.NewReplacer(":", "_", "=", "_", ",", "_").Replace(fl)
+		outFile := filepath.Join(scratch, fmt.Sprintf("out-%s-%d.jsonl", tag, n))
+		errFile := filepath.Join(scratch, fmt.Sprintf("err-%s-%d.txt", tag, n))
 		ef, _ := os.Create(errFile)
 		cmd := exec.Command(bin, "child", p.ID, casesFile, fmt.Sprint(b.from), fmt.Sprint(b.to), outFile, fl, o.Tier)
 		cmd.Stdout = ef
@@ -552,7 +554,10 @@ func runFlavor(p *Property, o SupOpts, fl, bin, casesFile string, cases []Case, 
 		os.MkdirAll(work, 0o755)
 		cmd.Env = append(os.Environ(), "GOTRACEBACK=all", "VERIF_SCRATCH="+work)
 		cmd.Env = append(cmd.Env, p.ChildEnv...)
-		if fl == "race" {
+		if parts := strings.SplitN(fl, ":", 2); len(parts) == 2 {
+			cmd.Env = append(cmd.Env, strings.Split(parts[1], ",")...)
+		}
+		if strings.HasPrefix(fl, "race") {
 			cmd.Env = append(cmd.Env, "GORACE=halt_on_error=0 log_path="+filepath.Join(scratch, fmt.Sprintf("race-%d", n)))
 		}
 		cmd.SysProcAttr = &syscall.SysProcAttr{Setpgid: true}
